@@ -113,6 +113,7 @@ def build(chk):
     c_modes(chk)
     c_interpolate(chk)
     c_extend(chk)
+    c_file_round_trip(chk)
     c_derivative(chk)
 
 
@@ -296,6 +297,73 @@ def c_interpolate(chk):
                            sym.to_sym(bool(len(d) == 2 and all(isinstance(q, SymObj) and q.attrs.get("of") is spl and q.attrs.get("__d__") == k + 1
                                                                for k, q in enumerate(d)))), func=fn)
     chk.bounded.append({"what": "_interpolate", "bound": "4-row tables, 1 and 2 components, every pattern of non-finite rows leaving >= 2 rows, two mode pairs", "held": True})
+
+
+def c_file_round_trip(chk):
+    """writeInterpolationTable / readInterpolationTable (3-row tables, 1 and 2 components).  The file system is a stub: savetxt keeps the
+    array it is given, genfromtxt returns it (assumed contract of the pair: text with >= 15 SIGNIFICANT digits reproduces a double to
+    1e-15 relative; this holds for the formats %.Ng / %.Ne with N >= 15, not for fixed-decimal %.Nf, which has absolute resolution).
+    Obligations: row i of what is written is (x_i, f(x_i) components), single space delimiter, significant-digit format;
+    what is read is split the same way and handed to _interpolate unchanged - so write followed by read installs the same table."""
+    import re
+    fnw, fnr = f"{IQ}.writeInterpolationTable", f"{IQ}.readInterpolationTable"
+    t = [real("t0"), real("t1"), real("t2")]
+    for K in (1, 2):
+        ys = as_array([real(f"y{i}") for i in range(3)]) if K == 1 else as_array([[real(f"y{i}{c}") for c in range(2)] for i in range(3)])
+        store = {}
+
+        def savetxt(it, a, k):
+            it.event(kind="savetxt", name=a[0], data=as_array(a[1]).copy(), fmt=k.get("fmt", a[2] if len(a) > 2 else "%.18e"), delimiter=k.get("delimiter", " "))
+            store[a[0]] = as_array(a[1]).copy()
+
+        def genfromtxt(it, a, k):
+            it.event(kind="genfromtxt", name=a[0], delimiter=k.get("delimiter"))
+            return store[a[0]].copy()
+        ext = {"numpy.savetxt": savetxt, "numpy.genfromtxt": genfromtxt}
+
+        def mkw(it, K=K, ys=ys):
+            for a_, b_ in zip(t, t[1:]):
+                it.assume(Lt(a_, b_))
+            o = make_fn(K, "NONE", "NONE")
+            o.attrs.update(_interpolationPoints=as_array(t), _interpolationValues=ys.copy(), _rangeMin=t[0], _rangeMax=t[2])
+            return o, ["table.txt"], {}, {"o": o}
+        rets = sel(chk.summarize(MODULE, "InterpolatableFunction.writeInterpolationTable", mkw, externals=ext, record=(K == 1)))
+        if len(rets) != 1:
+            chk.undecided.append(f"writeInterpolationTable[K{K}]: {len(rets)} returning paths")
+            continue
+        ev = [e for e in rets[0].events if e.get("kind") == "savetxt"]
+        ok = len(ev) == 1 and ev[0]["data"].shape == (3, 1 + K)
+        chk.vc(f"writeInterpolationTable.K{K}.one-table-of-rows-x-fx", rets[0].pc, sym.to_sym(bool(ok)), func=fnw)
+        if not ok:
+            continue
+        d = ev[0]["data"]
+        rows = And(*[Eq(d[i, 0], t[i]) for i in range(3)], *[Eq(d[i, 1 + c], as_array(ys[i]).reshape(-1)[c]) for i in range(3) for c in range(K)])
+        chk.vc(f"writeInterpolationTable.K{K}.rows-are-abscissa-then-values", rets[0].pc, rows, func=fnw)
+        fmt = ev[0]["fmt"]
+        m = re.fullmatch(r"%\.(\d+)([geE])", fmt) if isinstance(fmt, str) else None
+        sig = bool(m) and (int(m.group(1)) >= 15 if m.group(2) == "g" else int(m.group(1)) >= 14)
+        chk.vc(f"writeInterpolationTable.K{K}.significant-digit-format", rets[0].pc, sym.to_sym(bool(sig and ev[0]["delimiter"] == " ")), func=fnw,
+               meta={"fmt": str(fmt)})
+        # read back
+        seen = {}
+
+        def interp(it, so, a, k):
+            seen["x"], seen["fx"] = as_array(a[0]), as_array(a[1])
+            so.attrs.update(_rangeMin=real("rmin.read"), _rangeMax=real("rmax.read"))
+
+        def mkr(it, K=K):
+            o = make_fn(K, "NONE", "NONE")
+            return o, ["table.txt"], {}, {"o": o}
+        regr = {"InterpolatableFunction._interpolate": interp, "InterpolatableFunction._validateInterpolationTable": lambda it, so, a, k: True}
+        rr = sel(chk.summarize(MODULE, "InterpolatableFunction.readInterpolationTable", mkr, registry=regr, externals=ext, record=(K == 1)))
+        if len(rr) != 1 or "x" not in seen:
+            chk.undecided.append(f"readInterpolationTable[K{K}]: {len(rr)} returning paths / table not installed")
+            continue
+        x, fx = seen["x"], seen["fx"]
+        same = x.shape == (3,) and fx.shape == ys.shape
+        goal = And(*[Eq(a_, b_) for a_, b_ in zip(x.reshape(-1), t)], *[Eq(a_, b_) for a_, b_ in zip(fx.reshape(-1), ys.reshape(-1))]) if same else sp.false
+        chk.vc(f"readInterpolationTable.K{K}.installs-the-table-that-was-written", rr[0].pc, goal, func=fnr)
+    chk.bounded.append({"what": "file round trip", "bound": "3-row tables, 1 and 2 components; file system stubbed (text with >= 15 significant digits assumed to reproduce the numbers)", "held": True})
 
 
 def c_extend(chk):
